@@ -98,6 +98,17 @@ CHECKS = {
               "Optimiser: prod_perm_sound / licm_factor_sound / execL_append (+ section fusion partial); the state-dependent side conditions are validated per kernel by "
               "executing optimised and unoptimised ASTs exactly over Rat (per-program, labelled so)."),
         design="DESIGN.md §6 C17"),
+    "C18": dict(
+        technique="Lean 4 proof (declared kernel extents = contract extents for every integral type) + complete numba function table scan + plain-Python execution vs C",
+        text=("tensor_sizes_integral/expression are proved for any integral type and sizes; every math-function handler is formatted by the numba formatter and must be a call of an existing callable; "
+              "each generated numba module is parsed, executed in plain Python with bounds-checked carray views of exactly the declared extents, and compared kernel by kernel and field by field with the C backend. "
+              "The Python-grammar round trip of the numba formatter is C16's subject."),
+        design="DESIGN.md §6 C18"),
+    "C19": dict(
+        technique="Lean 4 proof (complete rule-id table by decide +kernel; scope-checker invariants; factorisation rejection theorems) + real compilation + malformed stream",
+        text=("rule_ids_distinct is decided over the regenerated table of all rules (cell × degree 0..30 × scheme); the block-scoping checker runs on every kernel AST; every corpus form and seeded multi-rule forms "
+              "are really compiled with -std=c17 -Wall -Werror=implicit-function-declaration; unsupported inputs must raise a Python exception before code is generated."),
+        design="DESIGN.md §6 C19"),
     "C20": dict(
         technique="Lean 4 proof (option merge precedence, CLI collection, complete template tables by decide) + correspondence + real ffcx runs compiled stand-alone",
         text=("merge_precedence, cli_only_given, decl_defined, format_code_concat, sanitise_ident are proved (template/option tables regenerated from /repo); get_options/parse_args are compared with the model "
